@@ -1,11 +1,13 @@
 //! Property checks and the shared finishing protocol (minimised replay, fresh-process
 //! confirmation, known findings).
+pub mod c01;
 pub mod c03;
 pub mod c12;
 pub mod c13;
 pub mod c18;
 pub mod common;
 pub mod gcsearch;
+pub mod refcheck;
 
 use crate::report::{known_for, load_known_findings, read_json, verif_dir, write_replay, Evidence, Tier, Verdict, Violation};
 use serde_json::Value;
@@ -21,6 +23,7 @@ pub struct PropertyDef {
 
 pub fn registry() -> Vec<PropertyDef> {
     vec![
+        PropertyDef { id: "C01", run: c01::run, replay: c01::replay, level: "exploration" },
         PropertyDef { id: "C03", run: c03::run, replay: c03::replay, level: "exploration" },
         PropertyDef { id: "C12", run: c12::run, replay: c12::replay, level: "exploration" },
         PropertyDef { id: "C18", run: c18::run, replay: c18::replay, level: "exploration" },
